@@ -455,6 +455,126 @@ theorem PA_incr_pre (d : Bool) (l : Expr) (hO : PO l) : PA (.incr true d l) := b
   have h1 := hO n rest (by omega) hlv hcl (cl_false_lt pc _ k hf (by omega))
   cases d <;> simp only [render, if_true, Bool.false_eq_true, if_false, List.cons_append, primaryF, h1]
 
+/-! ### getline forms -/
+
+/-- the second half of `primary()`'s GETLINE case: `[< file]` -/
+def glTail (b : Back) (target : Expr) (rest : List Tok) : Res :=
+  match rest with
+  | .cmp .lt :: rest' => bindR (b.primary rest') fun f rest'' => .ok (.getline .none target f, rest'')
+  | _ => .ok (.getline .none target .none, rest)
+
+theorem primary_getline_some (b : Back) (ts X : List Tok) (t : Expr) (h : optLValue b ts = .ok (some (t, X))) :
+    primaryF b (.getline :: ts) = glTail b t X := by
+  simp only [primaryF, h, glTail]
+  cases X with
+  | nil => rfl
+  | cons x r =>
+    cases x <;> first | rfl | (rename_i c; cases c <;> rfl)
+
+theorem primary_getline_noT (b : Back) (ts : List Tok) (h : optLValue b ts = .ok Option.none) :
+    primaryF b (.getline :: ts) = glTail b .none ts := by
+  simp only [primaryF, h, glTail]
+  cases ts with
+  | nil => rfl
+  | cons x r =>
+    cases x <;> first | rfl | (rename_i c; cases c <;> rfl)
+
+theorem glTail_nofile (b : Back) (t : Expr) (rest : List Tok) (pc : Bool) (h : cl pc (hd rest) < 7) :
+    glTail b t rest = .ok (.getline .none t .none, rest) := by
+  cases rest with
+  | nil => rfl
+  | cons x r =>
+    cases x <;> try rfl
+    rename_i c
+    cases c <;> first | rfl | (simp [hd, cl] at h)
+
+theorem glTail_file (m : Nat) (t f : Expr) (rest : List Tok) (hAf : PA f) (hd' : depth f ≤ m)
+    (hc : canon false 14 f = true) (hf : cl false (hd rest) < 14) :
+    glTail (ps (m+2)) t (.cmp .lt :: (render f ++ rest)) = .ok (.getline .none t f, rest) := by
+  have h1 : (ps (m+2)).primary (render f ++ rest) = .ok (f, rest) := hAf m false 14 rest hd' hc hf
+  simp only [glTail, h1, bindR_ok]
+
+theorem optLValue_noT (b : Back) (rest : List Tok) (pc : Bool) (h : cl pc (hd rest) < 8) : optLValue b rest = .ok Option.none := by
+  cases rest with
+  | nil => rfl
+  | cons t r => cases t <;> first | rfl | (simp [hd, cl] at h)
+
+theorem PA_getline_plain (t f : Expr) (hOt : PO t) (hAf : PA f) : PA (.getline .none t f) := by
+  intro n pc k rest hd' hcan hf
+  simp only [canon, beq_self_eq_true, if_true, Bool.and_eq_true, decide_eq_true_eq, Bool.or_eq_true, beq_iff_eq] at hcan
+  obtain ⟨ht, hk, hfc⟩ := hcan
+  simp only [depth] at hd'
+  have hdt : depth t ≤ n :=
+    Nat.le_trans (Nat.le_max_left _ _) (Nat.le_trans (Nat.le_max_right _ _) hd')
+  have hdf : (if f = Expr.none then 0 else depth f + 1) ≤ n :=
+    Nat.le_trans (Nat.le_max_right _ _) (Nat.le_trans (Nat.le_max_right _ _) hd')
+  have hf14 : cl false (hd rest) < 14 := cl_false_lt pc _ k hf (by omega)
+  apply from_primary _ _ _ _ _ _ _ hf
+  rw [render_getline_none]
+  -- what follows the target
+  have htail : ∀ t', glTail (ps (n+1)) t' (fileToks f ++ rest) = .ok (.getline .none t' f, rest) := by
+    intro t'
+    by_cases hfn : f = .none
+    · subst hfn; simp only [fileToks_none, List.nil_append]; exact glTail_nofile _ _ _ pc (by omega)
+    · rcases hfc with hfc | hfc
+      · exact absurd hfc hfn
+      · simp only [hfn, if_false] at hdf
+        obtain ⟨m, rfl⟩ : ∃ m, n = m + 1 := ⟨n - 1, by omega⟩
+        rw [fileToks_some f hfn]; exact glTail_file m t' f rest hAf (by omega) hfc hf14
+  have hX : cl false (hd (fileToks f ++ rest)) < 14 := by
+    by_cases hfn : f = .none
+    · subst hfn; simpa [fileToks_none] using hf14
+    · rw [fileToks_some f hfn]; simp [hd, cl]
+  by_cases htn : t = .none
+  · subst htn
+    have hopt : optLValue (ps (n+1)) (fileToks f ++ rest) = .ok Option.none := by
+      by_cases hfn : f = .none
+      · subst hfn; simp only [fileToks_none, List.nil_append]; exact optLValue_noT _ _ pc (by omega)
+      · rw [fileToks_some f hfn]; rfl
+    show primaryF _ (.getline :: ([] ++ (fileToks f ++ rest))) = _
+    rw [List.nil_append, primary_getline_noT _ _ hopt]
+    exact htail .none
+  · rcases ht with ht | ht
+    · exact absurd ht htn
+    · have hopt := hOt n (fileToks f ++ rest) hdt ht.1 ht.2 hX
+      show primaryF _ (.getline :: ((render t ++ fileToks f) ++ rest)) = _
+      rw [List.append_assoc, primary_getline_some _ _ _ _ hopt]
+      exact htail t
+
+theorem PA_getline_cmd (c t : Expr) (hc0 : c ≠ .none) (hAc : PA c) (hOt : PO t) : PA (.getline c t .none) := by
+  intro n pc k rest hd' hcan hf
+  simp only [canon, beq_iff_eq, hc0, if_false, Bool.and_eq_true, decide_eq_true_eq, Bool.or_eq_true, beq_self_eq_true,
+    Bool.not_eq_true', true_and] at hcan
+  obtain ⟨ht, ⟨hk, hpc⟩, hcc⟩ := hcan
+  subst hpc
+  have hk1 : k = 1 := by omega
+  subst hk1
+  have h0 : cl false (hd rest) = 0 := by omega
+  simp only [depth] at hd'
+  have hdc : depth c ≤ n := Nat.le_trans (Nat.le_max_left _ _) hd'
+  have hdt : depth t ≤ n := Nat.le_trans (Nat.le_max_left _ _) (Nat.le_trans (Nat.le_max_right _ _) hd')
+  rw [render_getline_cmd c t .none hc0, fileToks_none, List.append_nil]
+  have h3 := hAc n false 3 (.pipe :: .getline :: (render t ++ rest)) hdc hcc (by simp [hd, cl])
+  have hf' : ∀ j, 0 < j → cl false (hd rest) < j := by intro j hj; omega
+  have hcp : ∀ (b : Back) (e : Expr) (X : List Tok), condT b false e (.pipe :: X) = .ok (e, .pipe :: X) := fun _ _ _ => rfl
+  have hpend : pendingPrimary (ps (n+1)) c (.pipe :: .getline :: (render t ++ rest)) = .ok (.getline c t .none, rest) := by
+    by_cases htn : t = .none
+    · subst htn
+      have : optLValue (ps (n+1)) rest = .ok Option.none := optLValue_noT _ _ false (by omega)
+      simp only [pendingPrimary, render, List.nil_append, this]
+    · rcases ht with ht | ht
+      · exact absurd ht htn
+      · have := hOt n rest hdt ht.1 ht.2 (by omega)
+        simp only [pendingPrimary, this]
+  simp only [lv] at h3 ⊢
+  simp only [List.append_assoc, List.cons_append, assignP, Bool.false_eq_true, if_false, getlineP, condP, h3, bindR_ok, hcp, hpend,
+    postT_pass _ rest false (hf' _ (by omega)), powT_pass _ _ rest false (hf' _ (by omega)),
+    mulT_pass _ _ rest false (hf' _ (by omega)), addT_pass _ _ rest false (hf' _ (by omega)),
+    concatT_pass _ _ rest false (hf' _ (by omega)), compareT_pass _ false _ rest (hf' _ (by omega)),
+    matchT_pass _ false _ rest (hf' _ (by omega)), inT_pass false _ rest (hf' _ (by omega)),
+    andT_pass _ false _ rest (hf' _ (by omega)), orT_pass _ false _ rest (hf' _ (by omega)),
+    condT_pass _ false _ rest (hf' _ (by omega)), assignT_pass _ false _ rest (hf' _ (by omega))]
+
 theorem canon_up (pc : Bool) (h : Nat) (e : Expr) (hl : LoopLevel h) (hc : canon pc h e = true)
     (hne : ∀ op l r, e = .binary op l r → op.prec ≠ h) (hni : ∀ e' a, e = .inArr e' a → h ≠ 5) :
     canon pc (h+1) e = true := by
@@ -486,7 +606,16 @@ theorem canon_up (pc : Bool) (h : Nat) (e : Expr) (hl : LoopLevel h) (hc : canon
       exact ⟨⟨by omega, hc.1.2⟩, hc.2⟩
   | field e => simp only [canon, Bool.and_eq_true, decide_eq_true_eq] at hc ⊢; exact ⟨by omega, hc.2⟩
   | index a i => simp only [canon, Bool.and_eq_true, decide_eq_true_eq] at hc ⊢; exact ⟨by omega, hc.2⟩
-  | getline c t f => simp [canon] at hc
+  | getline c t f =>
+    simp only [canon, Bool.and_eq_true] at hc ⊢
+    refine ⟨hc.1, ?_⟩
+    have h2 := hc.2
+    split at h2
+    · rename_i hcn
+      simp only [hcn, if_true, Bool.and_eq_true, decide_eq_true_eq] at h2 ⊢
+      have : h ≠ 8 ∧ h ≠ 9 ∧ h ≠ 10 := by omega
+      exact ⟨by rcases hl with rfl | rfl | rfl | rfl | rfl | rfl <;> omega, h2.2⟩
+    · simp only [Bool.and_eq_true, decide_eq_true_eq] at h2; omega
 
 theorem PB_of_PA' (e : Expr) (hA : PA e) (hne : ∀ op l r, e = .binary op l r → False) (hni : ∀ e' a, e = .inArr e' a → False) :
     PB e := by
@@ -563,8 +692,15 @@ theorem parse_all' (e : Expr) : PAll e := by
       PX_index a i ih.1⟩
   | none =>
     exact ⟨by intro n pc k rest _ hc; simp [canon] at hc, by intro n pc h Y res _ _ hc; simp [canon] at hc, PX_trivial _ rfl rfl⟩
-  | getline c t f _ _ _ =>
-    exact ⟨by intro n pc k rest _ hc; simp [canon] at hc, by intro n pc h Y res _ _ hc; simp [canon] at hc, PX_trivial _ rfl rfl⟩
+  | getline c t f ihc iht ihf =>
+    have hA : PA (.getline c t f) := by
+      by_cases hcn : c = .none
+      · subst hcn; exact PA_getline_plain t f iht.2.2.2.1 ihf.1
+      · by_cases hfn : f = .none
+        · subst hfn; exact PA_getline_cmd c t hcn ihc.1 iht.2.2.2.1
+        · intro n pc k rest _ hcan
+          simp [canon, hcn, hfn] at hcan
+    exact ⟨hA, PB_of_PA' _ hA (by intro _ _ _ h; cases h) (by intro _ _ h; cases h), PX_trivial _ rfl rfl⟩
 
 theorem parse_all (e : Expr) : PA e ∧ PB e := ⟨(parse_all' e).1, (parse_all' e).2.1⟩
 
